@@ -14,7 +14,10 @@ Inductive pol_desc :=
 | PdSimple (n : Z)
 | PdExpo (n : Z)
 | PdDown (levels : list Z)
-| PdCustom (answers : list (bool * option Z)) (types : list Z).
+| PdCustom (answers : list (bool * option Z)) (types : list Z)
+(* the statement's retry-policy option as the caller set it, on a statement made by a Session whose
+   ClusterConfig.RetryPolicy is dflt: None = left alone, Some x = RetryPolicy(x) was called (PdNone = nil) *)
+| PdOpt (dflt : pol_desc) (opt : option pol_desc).
 
 Definition err_code (e : err) : Z :=
   match e with
@@ -31,8 +34,15 @@ Definition custom_policy (answers : list (bool * option Z)) (types : list Z) : p
                        | _ => nth (Z.to_nat ((Z.of_nat d + err_code e) mod Z.of_nat (length types))) types 0
                        end).
 
-Definition policy_of (pd : pol_desc) : option policy :=
+(* session.go: Session.Query / Session.Bind / Session.NewBatch copy cfg.RetryPolicy into the statement's rt
+   (defaultsFromSession), Query.RetryPolicy / Batch.RetryPolicy overwrite it (nil included), and
+   retryPolicy() returns rt: the effective policy is the option if set, else the session default *)
+Definition effective_desc (dflt : pol_desc) (opt : option pol_desc) : pol_desc :=
+  match opt with Some x => x | None => dflt end.
+
+Fixpoint policy_of (pd : pol_desc) : option policy :=
   match pd with
+  | PdOpt d o => policy_of (match o with Some x => x | None => d end)
   | PdNone => None
   | PdSimple n => Some (simple_policy n)
   | PdExpo n => Some (expo_policy n)
